@@ -568,6 +568,14 @@ class Program:
             self._by_name = m
         return self._by_name
 
+    def funci(self, name, unit_suffix=None, depth=2):
+        """the function with the file-local helpers it calls spliced in (engine/inline.py), or None"""
+        f = self.func(name, unit_suffix)
+        if f is None:
+            return None
+        import inline
+        return inline.inlined(f, depth)
+
     def func(self, name, unit_suffix=None):
         if unit_suffix:
             u = self.unit(unit_suffix)
